@@ -5,7 +5,9 @@
      crates/glaredb_ext_parquet/src/column/struct_reader.rs  (StructReader::should_prune, new_column_reader)
      crates/glaredb_ext_parquet/src/reader.rs                (Reader::poll_pull: pruned groups are skipped)
      crates/glaredb_core/src/arrays/scalar/unwrap.rs         (which ScalarValue variants a pruner accepts)
-   Definitions only (executable); what the code DOES, defects included. *)
+   Definitions only (executable); what the code DOES, defects included.
+   Re-transcribed after the repair f11c5d40d (the `min > max` guard); `Module Old` keeps the previous
+   should_prune. *)
 From Coq Require Import ZArith List Bool.
 Import ListNotations.
 Open Scope Z_scope.
@@ -75,12 +77,26 @@ Fixpoint prune_loop (lt : ltype) (mn mx : Z) (cs : list const) : outcome bool :=
       else Err
   end.
 
+(* as of /repo f11c5d40d: after the conversion, bounds that are not ordered in the logical type
+   (`min > max`, e.g. deprecated signed-order statistics of an unsigned column) are not used *)
 Definition should_prune (lt : ltype) (st : stats) (cs : list const) : outcome bool :=
   if negb (st_max_exact st && st_min_exact st) then Ok false else
   match st_min st, st_max st with
-  | Some mn, Some mx => prune_loop lt (conv lt mn) (conv lt mx) cs
+  | Some mn, Some mx =>
+      if conv lt mn >? conv lt mx then Ok false
+      else prune_loop lt (conv lt mn) (conv lt mx) cs
   | _, _ => Ok false
   end.
+
+(* the definition before f11c5d40d (no `min > max` guard), kept for the witness of the repaired defect *)
+Module Old.
+  Definition should_prune (lt : ltype) (st : stats) (cs : list const) : outcome bool :=
+    if negb (st_max_exact st && st_min_exact st) then Ok false else
+    match st_min st, st_max st with
+    | Some mn, Some mx => prune_loop lt (conv lt mn) (conv lt mx) cs
+    | _, _ => Ok false
+    end.
+End Old.
 
 (* ---- one column reader: new_column_reader picks the pruner by the logical data type ---- *)
 Inductive pruner := PNop | PPrim (lt : ltype).
@@ -161,6 +177,16 @@ Definition conv_monotone_on (lt : ltype) (o : sorder) (st : stats) : Prop :=
   forall mn mx, st_min st = Some mn -> st_max st = Some mx ->
   forall a b, okey o mn <= okey o a -> okey o a <= okey o b -> okey o b <= okey o mx ->
     conv lt a <= conv lt b.
+
+(* a native value of the physical type (i32 / i64) *)
+Definition native (pb z : Z) : Prop := - 2 ^ (pb - 1) <= z < 2 ^ (pb - 1).
+Definition stats_native (pb : Z) (st : stats) : Prop :=
+  (forall mn, st_min st = Some mn -> native pb mn) /\ (forall mx, st_max st = Some mx -> native pb mx).
+(* the bounds lie in the range of the logical type (needed for the narrowing conversions only) *)
+Definition in_lrange (lt : ltype) (z : Z) : Prop :=
+  if lt_signed lt then - 2 ^ (lt_bits lt - 1) <= z < 2 ^ (lt_bits lt - 1) else 0 <= z < 2 ^ lt_bits lt.
+Definition stats_in_lrange (lt : ltype) (st : stats) : Prop :=
+  (forall mn, st_min st = Some mn -> in_lrange lt mn) /\ (forall mx, st_max st = Some mx -> in_lrange lt mx).
 
 (* a row value passes the pushed conjunction `col = c1 AND col = c2 ...` *)
 Definition passes (lt : ltype) (cell : option Z) (cs : list const) : Prop :=
